@@ -63,4 +63,73 @@ CLAIMED = {
                 "narrow predicate; CoolProp HEOS trusted; continuous parameters derived from a hypothesis-drawn integer seed.",
         "technique": "property-based testing: synthetic-data parameter recovery with closed-form / PropsSI reference oracles",
     },
+    "C05": {
+        "text": "Pairs of isotherms generated by hypothesis: same content through 16 construction routes (arrays, frames with "
+                "any row labelling, integer literals, bool/float branch marks, material as dict, from_isotherm, clone, "
+                "sub-threshold perturbation, negative zero, keyword order, after read-only calls) must share id / == / "
+                "membership; 18 kinds of minimal content change must change the id; model and metadata-only isotherms; batches "
+                "rebuilt in a fresh interpreter with another PYTHONHASHSEED.",
+        "note": "Data values on a 1e-6 grid so that the 8-decimal rounding is unambiguous; point order is not varied.",
+        "technique": "property-based testing: metamorphic pairs (equal-content routes / minimal edits) + cross-process differential",
+    },
+    "C10": {
+        "text": "16 models x hypothesis-generated parameter vectors inside the declared bounds x scalar / 0-d / 1-d inputs: "
+                "conditioning-aware inverse law for the 10 closed-form pairs, residual test in the explicit function's space "
+                "for the 6 numerical inverses (only where the library reports success), zero point, non-negativity, "
+                "monotonicity, saturation bound, Henry limit, and ModelIsotherm accessors against the bare model on "
+                "reference-converted values.",
+        "note": "kappa estimated from central differences of the library's own loading; p-space test skipped when kappa > 1e6; "
+                "CalculationError of a numerical inverse counts as inconclusive; parameter windows are finite sub-windows of "
+                "the declared bounds.",
+        "technique": "property-based testing: inverse / monotonicity / bound laws over generated parameters with conditioning-aware tolerances",
+    },
+    "C11": {
+        "text": "13 models x generated parameters and pressures: spreading_pressure(p) against an independent adaptive "
+                "Gauss-Legendre quadrature in ln p of the model's own loading (closed forms for DR/DA), zero limit, "
+                "additivity, p dPi/dp = n; point isotherms against the closed-form integral of the independently built "
+                "interpolant (Henry segment + numpy.interp), laws, and unit arguments against the reference conversion.",
+        "note": "Open finding KF-C11-1 (TemkinApprox antiderivative constant n_m*theta/2, pinned by the stored test table) "
+                "excluded by a predicate that requires exactly that offset; models the library integrates with scipy quad "
+                "are compared at rel 1e-3 (the repository's own table tolerance).",
+        "technique": "property-based testing: differential against independent quadrature + integral identities",
+    },
+    "C13": {
+        "text": "Hypothesis-generated 2-4 component mixtures of model and point isotherms, partial pressures, permutations and "
+                "guesses: whenever iast_point / reverse_iast returns, fractions in [0,1] summing to one, equal spreading "
+                "pressures at p_i/x_i, ideal mixing rule, agreement with an independent one-dimensional bracketing IAST "
+                "solver, Henry and equal-capacity Langmuir closed forms, permutation invariance, forward/reverse inversion, "
+                "wrappers bit-equal to the point calculation.",
+        "note": "Spreading pressure taken from the isotherms' own spreading_pressure_at (C11's subject); library refusals "
+                "(any exception) make no claim and are counted as inconclusive.",
+        "technique": "property-based testing: residual recomputation + reference solver + closed forms + permutation metamorphism",
+    },
+    "C14": {
+        "text": "Synthetic isotherms generated exactly from the BET / Langmuir / t-plot / alpha-s / DR / DA governing equations "
+                "(raw-array and isotherm entry points, many unit configurations and adsorbates): recovered parameters within "
+                "1e-6, fitted window == python filter of the points inside the limits (also under noise: reported line == "
+                "independent least squares on exactly those points), refusal below three points, Rouquerol window recomputed "
+                "independently.",
+        "note": "Open finding KF-C14-3 (alpha_s evaluates a reference stored in absolute pressure at mislabelled pressures; "
+                "repair needs an edited test) excluded by a narrow predicate; limits never coincide with a data point.",
+        "technique": "property-based testing: generator-recovery (round trip through the governing equation) + independent window/least-squares oracle",
+    },
+    "C17": {
+        "text": "Generated widths, temperatures, adsorbent / adsorbate parameter sets x 4 models x 3 geometries: pressures from "
+                "independently typed published equations (HK slit, Saito-Foley cylinder, Cheng-Yang sphere, Rege-Yang) must "
+                "come back as the chosen widths; every solver result recorded through a run-time wrapper of _solve_hk / "
+                "_solve_hk_cy must solve the library's own potential; temperature metamorphic law; monotone widths; "
+                "cumulative-volume and distribution identities; psd_microporous interface.",
+        "note": "Open findings KF-C17-2/3/4 (Rege-Yang local minimiser returns non-solutions / non-monotone widths; HK "
+                "cylinder/sphere repulsive branch) excluded by narrow predicates; solver tolerance 5e-5 nm.",
+        "technique": "property-based testing: published-equation round trip + residual check through a wrapped solver + metamorphic temperature law",
+    },
+    "C18": {
+        "text": "Generated non-negative sparse/dense kernel combinations on generated pressure grids, spline orders 0-3, shipped "
+                "and harness-written user kernels: non-negativity, kernel-weighted sum == reported fit, reconstruction of "
+                "exact combinations, cumulative == running integral, limits isolation (== fit of the reduced isotherm, "
+                "outside points irrelevant), refusal of out-of-range pressures with CalculationError.",
+        "note": "Reconstruction bound 1 % relative with an absolute floor; reference kernel interpolation = independent CSV "
+                "reader + scipy CubicSpline.",
+        "technique": "property-based testing: synthetic exact combinations + algebraic identities + metamorphic limits isolation",
+    },
 }
